@@ -199,7 +199,7 @@ theorem invK_post {c : Conn α} (hw : Inv c) (h : InvK c) (calls : List Nat) (li
       have hw' : Inv ({ c with store := if opens c ver then openLog c.nextSid c.store else c.store, nextSid := c.nextSid + 1 } : Conn α) := by
         have := inv_postDup hw ver
         unfold postDup statusEx at this
-        refine ⟨hw.nodup, fun s hs => Nat.lt_succ_of_lt (hw.sid_lt s hs), this.store_lt, hw.att, hw.att_inj, hw.opn_att, hw.ex_ok⟩
+        refine ⟨hw.nodup, fun s hs => Nat.lt_succ_of_lt (hw.sid_lt s hs), this.store_lt, hw.att, hw.att_inj, hw.opn_att, hw.ex_ok, fun pw hp => Nat.lt_succ_of_lt (hw.pend_lt pw hp)⟩
       exact invK_statusEx (c := { c with store := if opens c ver then openLog c.nextSid c.store else c.store, nextSid := c.nextSid + 1 })
         hw' h _ _
     · rw [postNew_eq]
@@ -364,6 +364,26 @@ theorem invK_step {c : Conn α} (hw : Inv c) (h : InvK c) (l : Label α) : InvK 
   | sclose req retry => exact invK_sclose h _ _
   | «end» => exact h
   | evict _ _ => exact h
+  | wroute msg ctx ctxNew =>
+    show InvK (wrouteR c msg ctx ctxNew).1
+    unfold wrouteR
+    split
+    · exact h
+    · split
+      · exact invK_eraseResp h msg
+      · split
+        · exact invK_eraseResp h msg
+        · exact invK_eraseResp h msg
+  | wdeliver i =>
+    show InvK (wdeliverR c i).1
+    unfold wdeliverR
+    split
+    · exact h
+    · rename_i pw hpw
+      split
+      · rename_i s hs
+        exact invK_writeTo (c := { c with pendW := c.pendW.eraseIdx i }) h (findStream_some hs).1 _ _ _
+      · exact h
 
 theorem invK_runFrom {c : Conn α} (hw : Inv c) (h : InvK c) (ls : List (Label α)) : InvK (run c ls) := by
   induction ls generalizing c with
